@@ -92,8 +92,8 @@ def run_k1(tier, seed):
     cases = gen_cases(tier, seed)
     lines = [line_of(c) for c in cases]
     text = "\n".join(lines) + "\n"
-    p1 = subprocess.run([bins["k1"]], input=text, stdout=subprocess.PIPE, stderr=subprocess.PIPE, text=True, env=ENV)
-    p2 = subprocess.run([DRIVER, "k1"], input=text, stdout=subprocess.PIPE, stderr=subprocess.PIPE, text=True, env=ENV)
+    p1 = subprocess.run([bins["k1"]], input=text, stdout=subprocess.PIPE, stderr=subprocess.PIPE, text=True, errors="replace", env=ENV)
+    p2 = subprocess.run([DRIVER, "k1"], input=text, stdout=subprocess.PIPE, stderr=subprocess.PIPE, text=True, errors="replace", env=ENV)
     impl = p1.stdout.split("\n")[:-1]
     model = p2.stdout.split("\n")[:-1]
     res = {"total": len(lines), "mismatches": [], "panics": 0, "nontrivial": 0, "samples": [],
